@@ -69,8 +69,9 @@ CHECKS = {
     text='CrossHair executes YP.evaluate_bounded with engine.sys stubbed: old and requested limit, number of answers, the index and kind of exception raised by the source '
          '(RecursionError/RuntimeError/private) and by the projection function symbolic: limit restored in every case, no RecursionError escapes, result is the prefix of '
          'projections, the suspended source is closed. On 6 compiled skeletons a user predicate raises RecursionError at a symbolic invocation and the projection at a '
-         'symbolic answer: result is a prefix of the reference answers and every Variable created is unbound. Real low limits are validated natively.',
-    note='The limit striking is modelled as RecursionError at a predicate invocation; strikes inside engine internals are outside the model.',
+         'symbolic answer: result is a prefix of the reference answers and every Variable created is unbound. On dynamic facts a foreign term raises RecursionError '
+         'inside unify_arrays at a symbolic unification while an earlier argument\'s binding is suspended: same checks. Real low limits are validated natively.',
+    note='The limit striking is modelled as RecursionError at a predicate invocation or at a nested term unification inside unify_arrays; strikes at other points of engine internals are outside the model.',
     tech='symbolic execution with stubbed interpreter limit and symbolic fault points (CrossHair+z3)', ref='2 C17'),
  'C18': dict(
     text='CrossHair executes the compiler back end on a clause pool while set/frozenset in the compiler modules are NondetSet (iteration order = permutation chosen by '
